@@ -1397,6 +1397,7 @@ impl VectorEngine {
         for key in keys {
             let _ = self.store.delete(&key);
         }
+        self.invalidate_hnsw_cache(name);
 
         Ok(())
     }
@@ -2350,6 +2351,7 @@ impl VectorEngine {
         for key in keys {
             self.store.delete(&key)?;
         }
+        self.invalidate_hnsw_cache("_default");
         Ok(count)
     }
 
@@ -2935,6 +2937,7 @@ impl VectorEngine {
                 }
             })
             .count();
+        self.invalidate_hnsw_cache("_default");
 
         Ok(deleted)
     }
@@ -3305,6 +3308,7 @@ impl VectorEngine {
         }
 
         self.store.put(storage_key, tensor)?;
+        self.invalidate_hnsw_cache("_default");
         Ok(())
     }
 
